@@ -32,7 +32,9 @@ SPEC = dict(
     assumptions=[
         "head menu of 9 templates (own / several / zero / pooled parameters, one or two features, a leaf read around the features)",
         "trunk ops limited to the grammar of mc/programs.py",
-        "features are not computed from one another (nested features are excluded structurally)",
+        "features are not computed from one another, and no feature is produced by the same autograd node as an ancestor of another feature "
+        "(e.g. [x.unbind()[1], sin(x.unbind()[0])]): such nested features are excluded structurally - the statement does not define them. "
+        "Observation (not asserted): with node-level nesting mtl_backward(retain_graph=False) raises 'backward through the graph a second time'",
     ],
 )
 
@@ -47,7 +49,7 @@ def gen_cases(tier, seed):
         for prog, feats in P.enum_program_outputs(shapes, (1, 1, 1), depth, both_orders=both):
             nfeat = len(feats)
             tt = P.Typed(prog)
-            if any(a in tt.ancestors(b) for a in feats for b in feats):
+            if tt.node_nested(feats):
                 continue  # nested features (one feature computed from another): outside the statement
             for nt in (1, 2, 3):
                 if mode == "all" and nt <= 2:
